@@ -33,8 +33,13 @@ answers UNPREPARED; otherwise it sends rows encoded under its CURRENT columns an
   - with the metadata-id extension: metadata + new id iff the presented id differs from its current id,
   - else NO_METADATA iff the request said skip_metadata,
   - else the metadata without an id.
-Everything proved about the *driver* (Props/C14.lean, part A) is independent of this; the end-to-end statement
-("cached metadata = the columns the rows were encoded under") uses it as an explicit hypothesis (part B).
+Everything proved about the *driver* (Props/C14.lean, part A) is independent of this; the end-to-end statements
+("cached metadata = the columns the rows were encoded under", "an eviction is transparent") use it as an explicit
+hypothesis (part B). `Ov` are one-shot BYZANTINE answers (outside the assumption: `NodeOK` demands none is pending);
+they exist to drive the driver's error branches against the real code.
+
+Unmodelled (not driven either): `Session::prepare` on all nodes, `CachingSession`, `prepare_batch` for
+`BatchStatement::Query` with values (connection.rs:1248-1294), tracing, tablets payload.
 -/
 namespace ScyllaVerif.Prepared
 
